@@ -10,7 +10,8 @@
 (*     rendering), or what follows its indentation - or its definition     *)
 (*     term, separated by a gap of two or more blanks - is a single word.  *)
 (* The short form of a document contains the first paragraph of each help  *)
-(* text and nothing of the later ones.                                     *)
+(* text and nothing of the later ones: it is the full form without the     *)
+(* later paragraphs of the item help texts, token for token.               *)
 (* A small design model (WrapDesign) shows the acceptor is not vacuous and    *)
 (* not over-strict: the greedy wrap of any word sequence is accepted.      *)
 (***************************************************************************)
@@ -42,7 +43,7 @@ Next == /\ l <= Len(Rec)
            IF r.kind = "wrap"
            THEN IF Accepted(r) THEN bad' = bad
                 ELSE PrintT(<<"REJECT", l, IF r.got = r.refs THEN "width" ELSE "content">>) /\ bad' = bad + 1
-           ELSE IF RangeOf(r.p1) \subseteq RangeOf(r.short) /\ RangeOf(r.p2) \cap RangeOf(r.short) = {}
+           ELSE IF RangeOf(r.p1) \subseteq RangeOf(r.short) /\ RangeOf(r.p2) \cap RangeOf(r.short) = {} /\ r.short = r.expect
                 THEN bad' = bad
                 ELSE PrintT(<<"REJECT", l, "short">>) /\ bad' = bad + 1
         /\ l' = l + 1
